@@ -4,6 +4,7 @@
 // build tag off it is not part of the package, with it on it adds nothing to the build.
 package types
 
+//@ import strings "strings"
 //@ import sdk "github.com/cosmos/cosmos-sdk/types"
 //@ import common "github.com/ethereum/go-ethereum/common"
 
@@ -34,10 +35,10 @@ package types
 // the property's "signature made by the key controlling that address"
 //@ ghost func vauthSigBinds(account string, sig string) bool = bech32Valid(account) && vauthSigText(sig) && sigRecovers(hexDec(vauthSigHex(sig)), MessageToSign) && blen(bech32Bytes(account)) == 20 && sigSigner(hexDec(vauthSigHex(sig)), MessageToSign) == bytesAddr(bech32Bytes(account))
 // canonical text of a 32-byte hash: 0x + lower-case hex, exactly as common.Hash prints it
-//@ ghost func vauthHashText(h string) bool = len(h) >= 2 && substr(h, 0, 2) == "0x" && strLower(common.HexToHash(h).Hex()) == h
+//@ ghost func vauthHashText(h string) bool = len(h) >= 2 && substr(h, 0, 2) == "0x" && strings.ToLower(common.HexToHash(h).Hex()) == h
 // the exact acceptance conditions of the two ValidateBasic functions
 //@ ghost func vauthMsgValid(submitter string, account string, sig string) bool = bech32Valid(submitter) && bech32Valid(account) && bech32Bytes(submitter) != bech32Bytes(account) && vauthSigText(sig) && sigRecovers(hexDec(vauthSigHex(sig)), MessageToSign) && vauthSigMatches(account, sig)
-//@ ghost func vauthProofValid(account string, hash string, sig string) bool = bech32Valid(account) && vauthHashText(hash) && vauthSigText(sig) && strLower(sig) == sig && sigRecovers(hexDec(vauthSigHex(sig)), MessageToSign) && vauthSigMatches(account, sig)
+//@ ghost func vauthProofValid(account string, hash string, sig string) bool = bech32Valid(account) && vauthHashText(hash) && vauthSigText(sig) && strings.ToLower(sig) == sig && sigRecovers(hexDec(vauthSigHex(sig)), MessageToSign) && vauthSigMatches(account, sig)
 
 //@ func (m *MsgSubmitProofExternalOwnedAccount) ValidateBasic() (err error)
 //@   requires m != nil
